@@ -49,6 +49,34 @@ MANIFEST = {
 }
 
 
+def r8_external_type_transmitted(ctx) -> None:
+  ci = ctx.index.need_class('vizier._src.pyvizier.oss.proto_converters.ParameterConfigConverter')
+  fi = ci.methods.get('to_proto')
+  if fi is None:
+    raise AnalysisError('ParameterConfigConverter.to_proto not found')
+  g = cfgmod.CFG(fi.node)
+  par = [p_ for p_ in fi.params if p_ not in ('cls', 'self')][0]
+  writes = [n for n in g.nodes if n.kind == 'stmt' and isinstance(n.ast, ast.Assign) and any(
+      isinstance(t, ast.Attribute) and t.attr == 'external_type' for t in n.ast.targets)]
+  if not writes:
+    raise AnalysisError('ParameterConfigConverter.to_proto: write of proto.external_type not found')
+  for w in writes:
+    extra = []
+    for c_, pol in g.controlling_conditions(w):
+      conj = c_.values if isinstance(c_, ast.BoolOp) and isinstance(c_.op, ast.And) and pol else [c_]
+      for t in conj:
+        txt = unparse(t, 0)
+        presence = isinstance(t, ast.Compare) and len(t.ops) == 1 and isinstance(t.ops[0], (ast.IsNot, ast.Is)) \
+            and isinstance(t.comparators[0], ast.Constant) and t.comparators[0].value is None and txt.startswith(f'{par}.external_type')
+        if not presence:
+          extra.append(txt)
+    ctx.check(not extra, 'R8', 'ParameterConfigConverter.to_proto: external_type written whenever it is set', w.ast,
+              f'guarded by `{par}.external_type is not None` only',
+              f'the write of `external_type` also depends on `{extra[0] if extra else ""}`: a declared external type (e.g. BOOLEAN or INTEGER on a numeric '
+              'parameter) is dropped when the study is created, and clients then receive the internal representation (1.0 instead of True)',
+              construct='external-type-dropped', func=fi.qualname)
+
+
 def run(ctx) -> None:
   ctx.rule('R1', 'ParameterValue.cast: one arm per ExternalType with the matching accessor, else raise', 1)
   ctx.rule('R2', 'builders declare the documented external types', 2)
@@ -56,6 +84,8 @@ def run(ctx) -> None:
   ctx.rule('R4', 'children emitted only under an emitted parent with a matching value; cast by external type', 3)
   ctx.rule('R5', 'indexed parameters grouped by the parser and sorted by integer index; parser and builder agree', 3)
   ctx.rule('R6', 'clients.Trial.parameters uses StudyConfig.trial_parameters', 1)
+  ctx.rule('R8', 'a declared external type is always written to the study spec (guarded by `is not None` only)', 1)
+  r8_external_type_transmitted(ctx)
   ctx.import_rules('C09', {'R8', 'R5'}, 'R7', 'the study config the client casts with is the one that was stored: conditional children survive the wire one by one')
   trial_mod = ctx.index.need_module('vizier._src.pyvizier.shared.trial')
   pcm = ctx.index.need_module('vizier._src.pyvizier.shared.parameter_config')
